@@ -6,6 +6,7 @@ import (
 	"os"
 	"path/filepath"
 	"strings"
+	"syscall"
 
 	"github.com/FollowTheProcess/spok/file"
 	"github.com/FollowTheProcess/spok/simhook"
@@ -22,6 +23,9 @@ type FindCase struct {
 	// HomeLink: the CLI run reaches the chain through a symbolic link (homelink -> home): HOME and $PWD are the
 	// logical paths through the link, as a login shell would provide them, and a decoy spokfile sits above the real home
 	HomeLink bool `json:"home_link,omitempty"`
+	// Deep: the search starts this many (empty) directories below the start level, and file.Find runs with the
+	// process's open-file limit lowered to a handful of free descriptors: the climb must not need one per level
+	Deep int `json:"deep,omitempty"`
 }
 
 // FLevel says what one directory of the chain holds besides the next level.
@@ -46,7 +50,7 @@ func (findScen) Decode(raw json.RawMessage) (any, error) {
 	return &c, err
 }
 func (findScen) Rule(string) string {
-	return "case = a directory chain of depth <= 4 below the simulated $HOME where each level independently holds nothing / an entry sorting before and/or after 'spokfile' / a regular file 'spokfile' / a directory named 'spokfile'; start = any level (sometimes removed, so ReadDir fails); stop = any level or an unrelated directory; the real file.Find is called (and `spok --show` in-process with cwd=start, HOME=stop) with a step budget of depth(start)+2 directory reads enforced at simhook.Point(find.readdir). distinct_nontrivial = distinct (level contents, start, stop, outcome) tuples."
+	return "case = a directory chain of depth <= 4 (one case in a hundred: 30-60 further empty levels below the start, searched with only a handful of free file descriptors) below the simulated $HOME where each level independently holds nothing / an entry sorting before and/or after 'spokfile' / a regular file 'spokfile' / a directory named 'spokfile'; start = any level (sometimes removed, so ReadDir fails); stop = any level or an unrelated directory; the real file.Find is called (and `spok --show` in-process with cwd=start, HOME=stop) with a step budget of depth(start)+2 directory reads enforced at simhook.Point(find.readdir). distinct_nontrivial = distinct (level contents, start, stop, outcome) tuples."
 }
 
 func (findScen) Gen(r *Rng, cfg GenConfig) any {
@@ -79,6 +83,9 @@ func (findScen) Gen(r *Rng, cfg GenConfig) any {
 	}
 	c.Gone = r.Chance(1, 25)
 	c.HomeLink = c.CLI && !c.Gone && c.Stop >= 0 && c.Stop <= c.Start && r.Chance(1, 4)
+	if !c.Gone && r.Chance(1, 100) {
+		c.Deep = Pick(r, []int{30, 40, 60})
+	}
 	return c
 }
 
@@ -130,6 +137,13 @@ func (findScen) Exec(w *World, cc any, prop string) *Result {
 	start, stop := c.dir(w, c.Start), c.dir(w, c.Stop)
 	if c.Gone {
 		start = filepath.Join(start, "gone")
+	}
+	for i := 1; i <= c.Deep; i++ {
+		start = filepath.Join(start, fmt.Sprintf("d%d", i))
+	}
+	if c.Deep > 0 {
+		must(os.MkdirAll(start, 0o755))
+		res.count("fault_present:deep_start_directory_and_few_free_file_descriptors")
 	}
 
 	// ---- reference answer
@@ -241,6 +255,18 @@ func (findScen) Exec(w *World, cc any, prop string) *Result {
 					panic(r)
 				}
 			}()
+			if c.Deep > 0 {
+				// a handful of free descriptors only (RLIMIT_NOFILE, soft): new descriptors take the lowest free numbers
+				var old syscall.Rlimit
+				must(syscall.Getrlimit(syscall.RLIMIT_NOFILE, &old))
+				ents, _ := os.ReadDir("/proc/self/fd")
+				low := old
+				low.Cur = uint64(len(ents) + 8)
+				if low.Cur < old.Cur {
+					must(syscall.Setrlimit(syscall.RLIMIT_NOFILE, &low))
+					defer syscall.Setrlimit(syscall.RLIMIT_NOFILE, &old)
+				}
+			}
 			got, err = file.Find(quietLogger{}, start, stop)
 		}()
 		res.Ops++
